@@ -22,6 +22,8 @@ PROPS = {
                 {"harness": RT + "c08_reset_then_call", "fn": "src/runtime.rs :: Runtime::{reset_call_limit, increment_call_limit}"},
                 {"harness": RT + "c08_search_iter_b3", "fn": "src/runtime.rs :: RuntimeLimits::search_iter",
                  "bound": "search limit at most 3 (and the first 4 items of the unlimited stream)", "timeout": 600},
+                {"harness": RT + "c08_search_iter_b12", "fn": "src/runtime.rs :: RuntimeLimits::search_iter", "thorough_only": True,
+                 "bound": "search limit at most 12 (and the first 4 items of the unlimited stream)", "timeout": 1800},
             ]},
             {"kind": "verus", "unit": "tail"},
             {"kind": "verus", "unit": "budget"},
@@ -189,6 +191,10 @@ PROPS = {
                  "bound": "slices of at most 5 elements; comparator failing (error value or violation) at any call", "timeout": 600},
                 {"harness": "try_heap::heap_harness::heap_push_pop_b6", "fn": "src/util/try_heap.rs :: TryHeap::{push, pop, sift_up, sift_down_to_bottom}, Hole (unsafe)",
                  "bound": "at most 6 pushes followed by one pop; comparator failing (error value or violation) at any call", "timeout": 900},
+                {"harness": "trysort::harness::insert_head_b7", "fn": "src/util/trysort.rs :: insert_head (unsafe, InsertionHole)", "thorough_only": True,
+                 "bound": "slices of at most 7 elements; comparator failing (error value or violation) at any call", "timeout": 1800},
+                {"harness": "try_heap::heap_harness::heap_push_pop_b8", "fn": "src/util/try_heap.rs :: TryHeap::{push, pop, sift_up, sift_down_to_bottom}, Hole (unsafe)", "thorough_only": True,
+                 "bound": "at most 8 pushes followed by one pop; comparator failing (error value or violation) at any call", "timeout": 3600},
             ]},
         ],
         "unreached": [
